@@ -24,7 +24,7 @@ if "--write" in sys.argv:
     a = s.index("### 11.6 Seeded changes")
     b = s.index("### 11.7 Harmless refactors")
     head = s[a:].split("\n", 1)[0]
-    s = s[:a] + head + "\n\nEvery change below was produced by a fresh sub-agent that saw only the property text and a scratch worktree (rounds 1 and 2: names\n`-A`, `-B`).  In round 3 (names `-C`, `-D`) the agents were additionally told which source areas of /repo to aim at - the areas brought\nunder contract since round 2 - still without anything from /verif.  I confirmed each one\n(existing suite passes, the agent's demonstration fails with the change and passes without it) and then ran the checks with\n`VERIF_REPO` pointing at the changed tree (tools/seedtest.py); patch, demonstration and the full record are in `seeded/<name>/`.\n\n" + table + "\n\n" + s[b:]
+    s = s[:a] + head + "\n\nEvery change below was produced by a fresh sub-agent that saw only the property text and a scratch worktree of /repo - nothing from /verif.  Session 1\n(2026-09-26): the names `-A`, `-B` of C01-C12, C17, C18 (and C03-C/D ... C18-C/D).  Session 2 (2026-09-28): `C13-*`, `C15-*` and the names `-C`, `-D`,\n`-E` of C08, C09, C12, C17; these agents were additionally told which source area to aim at (the functions brought under contract in\nsession 2) and, from `C15-A` on, to make a small local change rather than a rewrite.  I confirmed each one (existing suite passes, the agent's\ndemonstration fails with the change and passes without it) and then ran the checks with `VERIF_REPO` pointing at the changed tree\n(tools/seedtest.py); patch, demonstration and the full record are in `seeded/<name>/`.  `UNDECIDED (exit 2)` rows are discussed in §12.5 (rewrites).\n\n" + table + "\n\n" + s[b:]
     open(p, "w").write(s)
 else:
     print(table)
